@@ -95,7 +95,7 @@ def job(args):
     t0 = time.time()
     S = run_script(desc, repo=repo)
     out = {"script": name, "props": desc["props"], "paths": S.paths, "path_ends": S.path_ends, "wall": S.wall,
-           "error": S.error, "dropped": S.dropped, "vacuity": S.vacuity, "executed": getattr(S, "executed", {}),
+           "error": S.error, "dropped": S.dropped, "vacuity": S.vacuity, "path_sat": getattr(S, "path_sat", {}), "executed": getattr(S, "executed", {}),
            "results": [res_dict(r, S.label) for r in S.results], "counterexamples": [], "native_desc": getattr(S, "native_desc", None)}
     # clauses covered by a recorded known finding are decided by replaying the recorded witness, not by a new search
     failed = [r for r in out["results"] if r["status"] in ("failed", "unknown") and not r.get("known_id")]
@@ -213,8 +213,41 @@ def write_replay(prop, payload):
     return path
 
 
+def engine_selftest():
+    """run on every check: (1) an obligation that must FAIL is refuted with a counter-model, (2) a script whose hypotheses are
+    contradictory is flagged as vacuous instead of 'proved', (3) a true obligation is proved.  Any other outcome is an engine error."""
+    from pyvc.driver import run_script
+    from pyvc.core import ctx, icmp, iadd
+
+    def bad(S, I, variant):
+        x = S.integer("x", lo=0)
+        S.holds("must fail: x >= 1 for every x >= 0", icmp(">=", x, 1))
+
+    def vacuous(S, I, variant):
+        x = S.integer("x", lo=0)
+        ctx().assume(icmp("<", x, 0))
+        S.holds("anything", icmp("==", x, 5))
+
+    def good(S, I, variant):
+        x = S.integer("x", lo=0)
+        S.holds("x + 1 >= 1", icmp(">=", iadd(x, 1), 1))
+
+    out = []
+    S1 = run_script({"name": "selftest/false-obligation", "fn": bad, "variant": None, "props": []}, repo=REPO)
+    out.append(S1.error is None and [r.status for r in S1.results] == ["failed"] and S1.results[0].model is not None)
+    S2 = run_script({"name": "selftest/vacuous", "fn": vacuous, "variant": None, "props": []}, repo=REPO)
+    out.append(S2.error is not None and "vacuous" in str(S2.error))
+    S3 = run_script({"name": "selftest/true-obligation", "fn": good, "variant": None, "props": []}, repo=REPO)
+    out.append(S3.error is None and [r.status for r in S3.results] == ["proved"])
+    return out
+
+
 def run_property(prop, tier):
     t0 = time.time()
+    st = engine_selftest()
+    if not all(st):
+        print("ENGINE-ERROR selftest (false obligation refuted, vacuity flagged, true obligation proved) =", st)
+        return 3
     seed = int(os.environ.get("VERIF_SEED", "0"))
     scripts = [d for d in load_scripts() if prop in d["props"] and (tier == "thorough" or not d.get("thorough_only"))]
     from contracts import meta as META
@@ -235,6 +268,7 @@ def run_property(prop, tier):
     solver_time = 0.0
     samples = []
     dropped = collections.Counter()
+    path_sat = collections.Counter()
     vac = 0
     skipped = []
     for o in outs:
@@ -248,6 +282,8 @@ def run_property(prop, tier):
         for k, v in (o["dropped"] or {}).items():
             dropped[k] += v
         vac += len(o["vacuity"])
+        for k_, v_ in (o.get("path_sat") or {}).items():
+            path_sat[k_] += v_
         cex = {c["clause"]: c for c in o["counterexamples"]}
         for r in o["results"]:
             if r.get("props") and prop not in r["props"]:
@@ -372,7 +408,12 @@ def run_property(prop, tier):
             "functions_under_contract": fnames,
             "scripts": [{"script": o["script"], "paths": o["paths"], "obligations": len(o["results"]),
                          "wall_s": round(o["total_wall"], 2)} for o in outs],
-            "extraction_dropped": dict(dropped), "vacuity_checks": vac,
+            "extraction_dropped": dict(dropped), "vacuity_checks": vac + sum(path_sat.values()),
+            "vacuity": {"paths_checked": sum(path_sat.values()), "hypotheses_satisfiable": path_sat.get("sat", 0),
+                        "contradictory(unpruned infeasible path)": path_sat.get("unsat", 0), "undetermined": path_sat.get("unknown", 0),
+                        "rule": "per path: 'False' must not follow from the hypotheses (nl-abstracted, rlimit); a script with no satisfiable path is an engine error"},
+            "engine_selftest": "passed on this run: a false obligation was refuted with a counter-model, contradictory hypotheses were "
+                               "flagged as vacuous, a true obligation was proved",
             "known_findings": known_lines, "undecided": undecided[:20], "scripts_not_applicable_to_code_shape": skipped,
             "samples": samples or [{"obligation": outs[0]["results"][0]["name"] if outs and outs[0]["results"] else "none"}],
             "explanation": META.EXPLANATION.get(prop, ""),
